@@ -3,7 +3,8 @@ import json, itertools
 from tools import vlib, corr, gen
 from tools.layers import direct as D
 
-RULE = ('scan + parse layers: repo corpus, mutants, grammar-generated documents: every token/event attribute and every mark of the Coq model vs yaml.scan/yaml.parse. '
+RULE = ('parsel layer: the parser alone (stub token source) vs Model/ParseL.v on token lists (events with all attributes and marks). '
+        'scan + parse layers: repo corpus, mutants, grammar-generated documents: every token/event attribute and every mark of the Coq model vs yaml.scan/yaml.parse. '
         'Direct on the implementation: each mark re-derived from the text by counting breaks, range, monotonicity, block/flow/stream balance, event grammar recogniser, '
         'span = value for single-line plain scalars/anchors/aliases, error marks; all strings over a 20-character indicator alphabet up to length L (quick 3, thorough 4); '
         'the parser alone on every token-kind list up to length K (quick 3, thorough 4) through a stub token source; LibYAML for range/monotonicity/grammar. '
@@ -22,6 +23,7 @@ def run(ctx):
     seqs = [list(t) for k in range(0, ctx.n(3, 4) + 1) for t in itertools.product(kinds, repeat=k)]
     if len(seqs) > 40000: seqs = seqs[:7000] + ctx.rng.sample(seqs[7000:], 33000)
     corr.direct(ctx, 'c09p', [[s] for s in seqs], describe=lambda s: dict(tokens=s[0]), label='parser_alone')
+    corr.parsel(ctx, corr.token_lists(ctx.rng, ctx.n(2500, 30000), maxlen_exhaustive=2), label='parsel')      # events and marks of the parser alone vs Model/ParseL.v
     ctx.partial = [dict(theorem='token_marks_monotone / block_balanced / parser_sound / span_is_value', missing='not proved; decided by correspondence (every mark) and the direct recomputation run')]
     return ctx.finish(assumptions=['LibYAML marks are only checked for range, monotonicity and grammar'])
 
